@@ -142,12 +142,24 @@ fn gen_case(t: &mut Tape) -> Pair {
                 }
                 _ => vec![],
             };
+            let multibyte = t.chance(1, 3);
             while l.len() < total {
-                l.push(match t.weighted(&[6, 1, 1]) {
-                    0 => b'a' + (l.len() % 26) as u8,
-                    1 => b' ',
-                    _ => t.range(0x21, 0x7e) as u8,
-                });
+                let left = total - l.len();
+                match t.weighted(&[6, 1, 1, if multibyte { 4 } else { 0 }]) {
+                    0 => l.push(b'a' + (l.len() % 26) as u8),
+                    1 => l.push(b' '),
+                    2 => l.push(t.range(0x21, 0x7e) as u8),
+                    _ => {
+                        // valid UTF-8 all the way: a multi-byte character only where it still fits
+                        let c = *t.pick(&['\u{e9}', '\u{20ac}', '\u{1f600}', '\u{7ff}', '\u{800}']);
+                        if c.len_utf8() <= left {
+                            let mut buf = [0u8; 4];
+                            l.extend_from_slice(c.encode_utf8(&mut buf).as_bytes());
+                        } else {
+                            l.push(b'z');
+                        }
+                    }
+                }
             }
             l.truncate(total);
             l.retain(|&b| b != b'\r');
